@@ -43,12 +43,16 @@ def plan(seed, tier):
     random.Random(seed).shuffle(vs)
     for i, v in enumerate(vs[:6] if tier == "quick" else vs):
         cases.append({"id": f"uuid-bad-sub-{seed}-{v}", "seed": seed * 100003 + 7500 + i, "violation": v, "subpkg": True})
+    # selective GAPIC generation configured next to the method settings (every RPC listed)
+    cases.append({"id": f"uuid-sel-{seed}", "seed": seed * 100003 + 7800, "violation": None, "selective": True})
+    for i, v in enumerate(["unknown_method", "leading_dot_selector", "duplicate_selector", "required_field", "server_streaming"]):
+        cases.append({"id": f"uuid-bad-sel-{seed}-{v}", "seed": seed * 100003 + 7810 + i, "violation": v, "selective": True})
     return cases
 
 
 def build_api(case):
     rng = random.Random(case["seed"])
-    return apigen.autopop_api(rng, "u%d" % (case["seed"] % 100000), violation=case["violation"], subpkg=bool(case.get("subpkg")))
+    return apigen.autopop_api(rng, "u%d" % (case["seed"] % 100000), violation=case["violation"], subpkg=bool(case.get("subpkg")), selective=bool(case.get("selective")))
 
 
 def run_case(case):
@@ -59,7 +63,7 @@ def run_case(case):
         viol = []
         # control: the same API without the planted entry is accepted — otherwise a rejection says nothing about the planted entry
         rng_c = random.Random(case["seed"])
-        ctl = apigen.autopop_api(rng_c, "u%d" % (case["seed"] % 100000), violation=case["violation"], plant=False, subpkg=bool(case.get("subpkg")))
+        ctl = apigen.autopop_api(rng_c, "u%d" % (case["seed"] % 100000), violation=case["violation"], plant=False, subpkg=bool(case.get("subpkg")), selective=bool(case.get("selective")))
         sc2 = os.path.join(scratch, "control")
         os.makedirs(sc2, exist_ok=True)
         _rq, gc_, _lb = pipeline.build_and_generate(ctl, sc2)
